@@ -18,6 +18,7 @@ sample; real dtype; finite; unit norm within 1e-9 (proper rotation within 1e-9
 for matrices; finite triple for angles).  Any exception is a violation (the
 inputs are well-formed by construction).
 """
+import os
 import random
 import numpy as np
 
@@ -87,7 +88,7 @@ class Check:
         n = rnd.choice([10, 30, 60, 120, 200]) if tier == 'quick' else rnd.choice([10, 40, 120, 400, 1200, 5000])
         mags = rnd.choice(['nominal', 'unit', 'decades', 'decades'])
         world = W.gen_world(rnd, n, allow_kicks=True, allow_poses=True, magnitudes=mags, noise=rnd.random() < 0.6)
-        if rnd.random() < 0.1:
+        if rnd.random() < (1.0 if os.environ.get('AHRS_SIM_C03_SLOW') else 0.1):
             world['dt'] = rnd.choice([0.1, 0.25, 1.0])      # slow loggers: valid sampling rates, large rotation per step
         kinds = rnd.sample(['glitch', 'scale', 'stuck', 'dup'], rnd.randint(0, 4))
         if kinds:
@@ -123,17 +124,19 @@ class Check:
                 a, m = hist.acc[t.key], hist.mag[t.key]
                 if k is None:
                     feats = sorted({axis_feature(a[i]) for i in range(hist.n)} - {'generic'})
-                    return 'history-has:' + (','.join(feats) if feats else 'none')
+                    mfeats = sorted({'m' + zero_feature(m[i]) for i in range(hist.n)} - {'mgeneric'})
+                    return 'history-has:' + (','.join(feats + mfeats) if feats or mfeats else 'none')
                 exact = (noise_free and not (hist.fault_mask_am[k] & (1 | 2 | 8))    # scale, dup and kick keep the images consistent
                          and k not in hist.fixed_rows.get(t.key, ()))
                 return f"acc:{axis_feature(a[k])}|mag:{zero_feature(m[k])}|{'exact' if exact else 'perturbed'}"
             if k is None:
                 # a batch constructor that raised does not say at which row: say whether exact poses were in the history
-                return 'history-with-exact-pose' if clean_pose else 'generic'
+                return ('slow-sampling:' if hist.dt >= 0.1 else '') + ('history-with-exact-pose' if clean_pose else 'generic')
+            slow = 'slow-sampling:' if hist.dt >= 0.1 else ''
             lab = hist.labels[k] if k < len(hist.labels) else ''
             if lab.startswith('pose:') and noise_free and not (hist.fault_mask[k] & ~32):
-                return lab
-            return 'generic'
+                return slow + lab
+            return slow + 'generic'
 
         def v(t, symptom, k, detail, arch):
             return {'component': t.kind.name, 'symptom': symptom, 'trigger': trigger_at(t, k), 'step': k, 'detail': f'[{arch}] ' + detail, 'task': t.idx}
